@@ -75,6 +75,58 @@ for seq in itertools.product([None, 35.0, 40.0], repeat=3):
         ref = (rx2.snr_01nm, rx2.osnr_ase_01nm, rx2.snr, rx2.osnr_ase, rx2.osnr_nli)
         if not all(np.allclose(x, y, rtol=0, atol=1e-12, equal_nan=True) for x, y in zip(got, ref)):
             wit.append({'key': f'accumulation:{seq}:{reps}'})
-finish('penalty tables, out-of-table blocking, no accumulation of added OSNR', 'bounded',
-       'gnpy.tools.json_io.Transceiver.__init__, gnpy.core.elements.Transceiver.calc_penalties/_calc_penalty/update_snr',
-       '4 penalty tables x 6 impairment values; 27 contribution tuples x 1/2/5 repeated calls', cases, wit, t0=t0)
+# end to end, fixed mode (also the reverse direction of a bidirectional request): the verdict of the planner is
+# min GSNR(0.1 nm) - interpolated penalty >= OSNR + margin with the penalty of the mode asked for, out-of-table blocking
+from copy import deepcopy
+from bounded.common import mesh, design, equipment, service, EXAMPLE
+from gnpy.tools.json_io import load_json, _equipment_from_json, DEFAULT_EXTRA_CONFIG
+from gnpy.tools.worker_utils import planning
+eqj = load_json(EXAMPLE / 'eqpt_config.json')
+proto = next(m for t in eqj['Transceiver'] if t['type_variety'] == 'Voyager' for m in t['mode'] if m['format'] == 'mode 1')
+MARGIN = eqj['SI'][0]['sys_margins']
+net0, eq0 = design(mesh(['A', 'B'], [('A', 'B')], spans={('A', 'B'): [80]}))
+probe_res = planning(deepcopy(net0), deepcopy(eq0), {'path-request': [service('p', 'A', 'B', mode='mode 1', bidir=True)], 'synchronization': []})
+rx0 = probe_res[1][0][-1]
+gsnr0, cd0 = float(min(rx0.snr_01nm)), float(max(rx0.chromatic_dispersion))
+for label, table in (('no table', None), ('inside, small', [(0, 0), (4 * cd0, 1.0)]), ('inside, large', [(0, 0), (2 * cd0, 12.0)]),
+                     ('outside', [(0, 0), (cd0 / 2, 0.5)])):
+    for slack in (0.4, 3.4, 7.0):
+        for bidir in (False, True):
+            cases += 1
+            j = deepcopy(eqj)
+            mode = dict(deepcopy(proto), format='pen', OSNR=round(gsnr0 - MARGIN - slack, 2))
+            if table is not None:
+                mode['penalties'] = [{'chromatic_dispersion': x, 'penalty_value': y} for x, y in table]
+            next(t for t in j['Transceiver'] if t['type_variety'] == 'Voyager')['mode'].append(mode)
+            eq = _equipment_from_json(j, DEFAULT_EXTRA_CONFIG)
+            try:
+                _, pp, rpp, rqs, _, _ = planning(deepcopy(net0), eq, {'path-request': [service('r', 'A', 'B', mode='pen', bidir=bidir)],
+                                                                       'synchronization': []})
+            except Exception as e:
+                wit.append({'key': f'fixed-mode-verdict:{label}:{slack}:{bidir}', 'problems': [f'{type(e).__name__}: {e}']})
+                continue
+            rq = rqs[0]
+            feasible = True
+            detail = []
+            for pth in [pp[0]] + ([rpp[0]] if bidir else []):
+                rx = pth[-1]
+                cd = np.asarray(rx.chromatic_dispersion, dtype=float)
+                if table is None:
+                    pen = np.zeros_like(cd)
+                else:
+                    xs, ys = zip(*sorted(table))
+                    pen = np.array([np.interp(v, xs, ys) if xs[0] <= v <= xs[-1] else math.inf for v in cd])
+                metric = float(np.min(np.asarray(rx.snr_01nm, dtype=float) - pen))
+                detail.append(round(metric, 3))
+                if round(metric, 2) < mode['OSNR'] + MARGIN:
+                    feasible = False
+            blocked = getattr(rq, 'blocking_reason', None)
+            if feasible != (blocked is None) or (blocked is not None and blocked != 'MODE_NOT_FEASIBLE'):
+                wit.append({'key': f'fixed-mode-verdict:{label}:slack {slack}:bidir {bidir}',
+                            'problems': [f'GSNR - penalty per direction {detail} dB against {mode["OSNR"]} + {MARGIN} dB: expected '
+                                         f'{"feasible" if feasible else "MODE_NOT_FEASIBLE"}, the planner reports {blocked or "feasible"}']})
+finish('penalty tables, out-of-table blocking, no accumulation of added OSNR; fixed-mode verdict of the planner with penalty tables', 'bounded',
+       'gnpy.tools.json_io.Transceiver.__init__, gnpy.core.elements.Transceiver.calc_penalties/_calc_penalty/update_snr, '
+       'gnpy.topology.request.propagate / compute_path_with_disjunction (fixed mode)',
+       '4 penalty tables x 6 impairment values; 27 contribution tuples x 1/2/5 repeated calls; 4 tables x 3 thresholds x uni/bidirectional '
+       'fixed-mode requests on an 80 km line', cases, wit, t0=t0)
